@@ -101,9 +101,14 @@ def lookup_dump(ctx):
 		with open(tu, "w") as f:
 			f.write("/* generated: function text from %s */\n#define LOOKUP_PART_1\n#include \"sched_lookup_main.c\"\n#undef LOOKUP_PART_1\n" % SCHED_TRX_C)
 			f.write(text + "\n#define LOOKUP_PART_2\n#include \"sched_lookup_main.c\"\n")
-		binary = cbuild.compile_link(bd, "sched_lookup_drv", [tu, os.path.join(cbuild.TRXCON, "src/sched_mframe.c"),
-			os.path.join(cbuild.CDIR, "shim/shim.c")],
-			includes = [os.path.join(cbuild.CDIR, "drivers")] + cbuild.trxcon_includes(bd), cflags = cbuild.GC[0], ldflags = cbuild.GC[1])
+		try:
+			binary = cbuild.compile_link(bd, "sched_lookup_drv", [tu, os.path.join(cbuild.TRXCON, "src/sched_mframe.c"),
+				os.path.join(cbuild.CDIR, "shim/shim.c")],
+				includes = [os.path.join(cbuild.CDIR, "drivers")] + cbuild.trxcon_includes(bd), cflags = cbuild.GC[0], ldflags = cbuild.GC[1])
+		except cbuild.BuildFailed:
+			# the functions exist but no longer fit the stand-ins: this sub-workload cannot speak
+			ctx.count("scheduler_lookup_not_buildable_with_the_stand_ins")
+			return None
 		rc, out, err = cbuild.run_patient(binary, timeout = 120)
 	finally:
 		bd.remove()
